@@ -545,6 +545,40 @@ def serial_range_end(ctx):
         cls._nextSerial = max(saved, 2**16 + 16)
 
 
+def longest_signature(ctx):
+    """Body signatures of the greatest legal length (255 characters, what the one-byte length of the SIGNATURE type holds)
+    and just below: constructed, serialised, strictly parsed, parsed back - also as another implementation would write
+    them, in either byte order."""
+    for n in (255, 254, 253, 128, 127):
+        for sig, vals in (('y' * n, [i % 256 for i in range(n)]), ('s' + 'y' * (n - 1), ['text'] + [7] * (n - 1)),
+                          ('(' + 'y' * (n - 2) + ')', [[1] * (n - 2)])):
+            case = {'kind': 'longest-signature', 'n': n, 'sig': sig[:12]}
+            ctx.count('evaluations')
+            ctx.count('longest_signature_cases')
+            w = {'signature_length': len(sig), 'signature_start': sig[:16]}
+            try:
+                m = MSG.SignalMessage('/a', 'M', 'a.b', signature=sig, body=vals)
+                raws = [('built', m.rawMessage)]
+            except Exception as e:
+                ctx.report(None, 'a signal with a %d-character signature cannot be constructed: %r' % (len(sig), e), w, case)
+                continue
+            for little in (True, False):
+                raws.append(('foreign-%s' % ('le' if little else 'be'),
+                             RM.build(4, 4242, {'path': '/a', 'member': 'M', 'interface': 'a.b'}, sig, vals, little)))
+            for how, raw in raws:
+                try:
+                    RM.parse(raw, strict=True)
+                    back = MSG.parseMessage(raw, [])
+                except Exception as e:
+                    ctx.report('longest-signature-refused', 'a %s message whose signature is %d characters long does not parse '
+                               'back: %r' % (how, len(sig), e), w, case)
+                    break
+                if back.signature != sig or not R.plain_eq(back.body, vals):
+                    ctx.report('longest-signature-refused', 'a %s message whose signature is %d characters long parses back with '
+                               'another signature or body' % (how, len(sig)), w, case)
+                    break
+
+
 def run(ctx):
     selfcheck.check_codec()
     si, sn = ctx.shard or (0, 1)
@@ -585,6 +619,7 @@ def run(ctx):
         ctx.count('evaluations', len(_serials) - before)
         ctx.count('long_serial_run', len(_serials) - before)
         serial_range_end(ctx)
+        longest_signature(ctx)
     ctx.require(ctx.ndistinct('field_subsets') >= 32 or sn > 1, 'not every constructor x field subset reached')
     ctx.require(ctx.counters.get('foreign_big', 0) > 100, 'too few big-endian foreign messages')
 
@@ -598,6 +633,8 @@ def replay(ctx, rp):
         check_foreign(ctx, seed, case['idx'])
     elif case['kind'] == 'size':
         size_probes(ctx)
+    elif case['kind'] == 'longest-signature':
+        longest_signature(ctx)
     elif case['kind'] == 'serial-range-end':
         serial_range_end(ctx)
     else:
